@@ -154,6 +154,11 @@ def items(tier, seed):
         per = 20
         for i in range(0, len(A), per):
             out.append(("use", w, i, min(i + per, len(A)), tier, seed))
+    for w in ([8, 32] if tier == "quick" else [8, 16, 32, 64]):
+        A = operand_trees(w, tier, seed)
+        per = 40
+        for i in range(0, len(A), per):
+            out.append(("hold", w, i, min(i + per, len(A)), tier, seed))
     out.append(("pickle", 8, tier, seed))
     out.append(("pickle", 32, tier, seed))
     return out
@@ -244,6 +249,8 @@ def _py_eval(e, env_regs):
 def replay(rep):
     if rep["kind"] == "pickle":
         return _replay_pickle(rep)
+    if rep["kind"] == "hold":
+        return _replay_hold(rep)
     ta, tb, w = c01._tup(rep["ta"]), c01._tup(rep["tb"]), rep["w"]
     A, B = TR.build(ta), TR.build(tb)
     obj = A if rep["which"] == "A" else B
@@ -289,6 +296,156 @@ def replay(rep):
     except TS.TranslateError:
         pass
     return (False, "operand unchanged on 300 concrete valuations")
+
+
+# ------------------------------------------------------------------ held values
+# A value obtained FROM a map (or the content of a map) is held while the map / a copy / a composition is
+# used further: the held object, and what the untouched map reads, must keep denoting the same function.
+def _holders():
+    H = {}
+
+    def h_read(A, B, w):
+        m = mapper()
+        r = X.reg("r", w)
+        h = max(1, w // 2)
+        m[r] = A
+        if w >= 2:
+            m[r[0:h]] = B[0:h]
+        held = [("m[r]", m[r]), ("m(r)", m(r)), ("m[r][0:w]", m[r][0:w])]
+
+        def s1():
+            if w >= 2:
+                m[r[h:w]] = B[h:w]
+
+        def s2():
+            if w >= 2:
+                m[r[0:1]] = X.cst(1, 1)
+
+        def s3():
+            m[r] = B
+        return held, [], [s1, s2, s3]
+    H["map-read-held-while-written"] = h_read
+
+    def h_mem(A, B, w, which=0):
+        if w not in (8, 16, 32, 64):
+            return [], [], []
+        p = X.reg("p", 64)
+        m1 = mapper()
+        m1[X.mem(p, w)] = A
+        m1[X.reg("r", w)] = B
+        probes = [("m1(M(p))", lambda: m1(X.mem(p, w))), ("m1[M(p)]", lambda: m1[X.mem(p, w)]), ("m1(M8(p+0))", lambda: m1(X.mem(p, 8)))]
+
+        m2 = mapper()
+        m2[X.mem(p, 8, disp=(1 if w > 8 else 0))] = B[0:8]
+        m2[X.reg("r", w)] = A
+
+        def s_copy():
+            c = m1.use()
+            c[X.mem(p, 8, disp=(1 if w > 8 else 0))] = B[0:8]
+            c[X.reg("r", w)] = A
+        # one probe per scenario: a read through mapper.__call__ re-reads the ordered map entries and would hide
+        # a change of the zones from the probes evaluated after it
+        return [], [probes[which]], [lambda: m1 >> m2, lambda: m2 >> m1, lambda: m1.eval(m2), lambda: merge(m1, m2), lambda: m1 << m2, s_copy]
+    H["map-content-while-copies-and-compositions-are-written"] = lambda A, B, w: h_mem(A, B, w, 1)
+    H["map-content(call)-while-copies-and-compositions-are-written"] = lambda A, B, w: h_mem(A, B, w, 0)
+    H["map-content(byte)-while-copies-and-compositions-are-written"] = lambda A, B, w: h_mem(A, B, w, 2)
+    return H
+
+
+HOLDERS = _holders()
+
+
+def run_hold(item):
+    _, w, lo, hi, tier, seed = item
+    res = _newres()
+    P = TS.Prover()
+    As = operand_trees(w, tier, seed)
+    Bs = [("reg", "b", w), ("op", "+", ("reg", "a", w), ("cst", 1, w))]
+    if w >= 2:
+        Bs.append(("cat", [("reg", "p", w // 2), ("reg", "b", w - w // 2)]))
+    for ta in As[lo:hi]:
+        for tb in Bs:
+            for name, f in HOLDERS.items():
+                A, B = TR.build(ta), TR.build(tb)
+                try:
+                    held, probes, later = f(A, B, w)
+                except Exception as ex:
+                    res["consumer_exceptions"][type(ex).__name__] = res["consumer_exceptions"].get(type(ex).__name__, 0) + 1
+                    continue
+                tracked = [(lab, obj, snapshot(obj), None) for lab, obj in held]
+                for lab, pr in probes:
+                    try:
+                        tracked.append((lab, None, snapshot(pr()), pr))
+                    except Exception:
+                        pass
+                res["programs"] += 1
+                bad = False
+                for sk, step in enumerate(later):
+                    try:
+                        step()
+                    except Exception as ex:
+                        res["consumer_exceptions"][type(ex).__name__] = res["consumer_exceptions"].get(type(ex).__name__, 0) + 1
+                    for lab, obj, snap, pr in tracked:
+                        if snap is None or snap[0].saw_top:
+                            continue
+                        res["obligations"] += 1
+                        try:
+                            now = obj if pr is None else pr()
+                        except Exception as ex:
+                            d = ("raises", type(ex).__name__)
+                        else:
+                            d = same(P, snap, now)
+                        if d is None:
+                            res["discharged"] += 1
+                        elif d[0] == "unknown":
+                            res["inconclusive"] += 1
+                        else:
+                            rep = {"kind": "hold", "ta": ta, "tb": tb, "w": w, "holder": name, "label": lab, "what": d[0], "step": sk}
+                            ok, detail = _replay_hold(rep)
+                            res["disagreements_checked"] += 1
+                            res["violations"].append({"key": "hold:%s:%s:%s:step%d" % (d[0], name, lab, sk), "desc": "%s changed (%s: %s) after step %d of using the map / its copies further; A=%r B=%r | replay: %s" % (lab, d[0], d[1], sk, ta, tb, detail), "replay": rep, "reproduced": ok})
+                            bad = True
+                            break
+                    if bad:
+                        break
+    res["solver_s"] = P.time
+    return res
+
+
+def _replay_hold(rep):
+    ta, tb, w = c01._tup(rep["ta"]), c01._tup(rep["tb"]), rep["w"]
+    A, B = TR.build(ta), TR.build(tb)
+    held, probes, later = HOLDERS[rep["holder"]](A, B, w)
+    objs = dict(held)
+    prs = dict(probes)
+    lab = rep["label"]
+    regs = dict(TR.regs_of(ta))
+    regs.update(TR.regs_of(tb))
+    regs.setdefault("p", 64)
+    rnd = random.Random(7)
+    envs = [{(n, sz): rnd.choice([0, 1, (1 << sz) - 1, 1 << (sz - 1), rnd.getrandbits(sz)]) for n, sz in regs.items()} for _ in range(40)]
+
+    def fp():
+        e = objs[lab] if lab in objs else prs[lab]()
+        out = [str(e), e.size]
+        for env in envs:
+            try:
+                v = _py_eval(e, env)
+                out.append(v.v if v._is_cst else str(v))
+            except Exception as ex:
+                out.append(type(ex).__name__)
+        return out
+    before = fp()
+    for step in later[: rep.get("step", len(later) - 1) + 1]:
+        try:
+            step()
+        except Exception:
+            pass
+    after = fp()
+    if before != after:
+        k = next(i for i, (x, y) in enumerate(zip(before, after)) if x != y)
+        return (True, "%s printed %s before and %s after; first differing observation #%d: %s -> %s" % (lab, before[0], after[0], k, before[k], after[k]))
+    return (False, "%s prints and evaluates identically before and after" % lab)
 
 
 # ------------------------------------------------------------------ pickle
@@ -444,6 +601,8 @@ def _newres():
 
 
 def run_item(item):
+    if item[0] == "hold":
+        return run_hold(item)
     return run_pickle(item) if item[0] == "pickle" else run_use(item)
 
 
